@@ -301,12 +301,14 @@ static inline bl_mptr vtb_ptr_to_base(bl_bucket b, size_t i) { bl_mptr p; p.buck
 static inline RuntimeMethod vtb_deref(bl_mptr p) { BL_ASSERT(PTR_LIVE(p), "RuntimeMethod* points to live storage"); return p.in_base ? g_bb[p.bucket][p.idx] : g_b[p.bucket][p.idx]; }
 static inline bl_bit vtb_base_find(bl_cname name) { return g_base_has[BL_IDX(name, KNV)] ? (bl_bit)name : BL_BIT_END; }
 /* the vtable, observed at one arbitrary signature */
-int gs; _Bool g_vt_has; bl_mptr g_vt_ptr; int g_others;
+int gs; _Bool g_vt_has; bl_mptr g_vt_ptr; int g_others; int g_sig[MMAXV];      /* g_sig[j]: signature of member j, computed once (no calls in loop invariants) */
 static inline void vtb_vtable_set(int sig, bl_mptr p) { if (sig == gs) { g_vt_has = 1; g_vt_ptr = p; } }
 static inline void vtb_other_member_event(bl_member m) { if (g_others < 1000) g_others = g_others + 1; }
 #endif
 #define VT_ENTRY_LIVE (!g_vt_has || PTR_LIVE(g_vt_ptr))
 #define VT_ENTRY_OWN (!g_vt_has || (!g_vt_ptr.in_base && PTR_LIVE(g_vt_ptr) && g_b[g_vt_ptr.bucket][g_vt_ptr.idx].signature == gs && g_b[g_vt_ptr.bucket][g_vt_ptr.idx].owner == rc))
+#define VIRT_MEMBER(j) ((j) < g_nmembers && g_md[g_members[j]].kind == K_METHOD && (g_md[g_members[j]].isVirtual || g_md[g_members[j]].isOverride) && g_sig[j] == gs)
+#define DECLARED_BELOW(n) (""" + ' || '.join('(%d < (n) && VIRT_MEMBER(%d))' % (j, j) for j in range(6)) + r""")
 #define WF_V (g_nmembers <= MMAXV && """ + ' && '.join('(g_members[%d] >= 1 && g_members[%d] <= MMAXV && g_md[g_members[%d]].name >= 0 && g_md[g_members[%d]].name < KNV)' % (k, k, k, k) for k in range(6)) + ' && ' + ' && '.join('(g_bsize[%d] == 0 && g_bbsize[%d] <= BMAXV)' % (k, k) for k in range(4)) + r""")
 """
 
@@ -324,21 +326,26 @@ def A(t):
 
 
 ST = '__CPROVER_object_whole(g_b), __CPROVER_object_whole(g_bsize), __CPROVER_object_whole(g_gen), g_vt_has, g_vt_ptr, g_others'
+SIGS = ' '.join('g_sig[%d] = SIG_OF(g_members[%d]);' % (j, j) for j in range(6))
 CONTRACTS = {
     'member_methods': {
         'contract': [
             R('bl_exc == 0 && WF_V && rc >= 1 && !g_vt_has && g_others == 0 && ' + ' && '.join('(g_bsize[%d] + (size_t)(' % k + ' + '.join('((%d < g_nmembers && g_md[g_members[%d]].kind == K_METHOD && g_md[g_members[%d]].name == %d) ? 1 : 0)' % (j, j, j, k) for j in range(6)) + ') <= BMAXV)' for k in range(4))),
-            A(ST),
+            A(ST + ', __CPROVER_object_whole(g_sig)'),
             # C12: when the class is populated, every vtable entry points to live storage (no pointer into a reallocated container)
             E('buildClassTable.vtable_entries_point_to_live_methods', 'VT_ENTRY_LIVE', ['C12', 'C08']),
             # C08: the entry for a signature this class declares virtual / override is this class's own method with that signature
             E('buildClassTable.vtable_entry_is_the_classes_own_method', 'VT_ENTRY_OWN', ['C08']),
+            # ... and EVERY method the class declares virtual or override has its entry - also an override whose virtual original is declared further up than the direct base
+            E('buildClassTable.every_virtual_or_override_method_gets_its_entry', 'DECLARED_BELOW(g_nmembers) ==> g_vt_has', ['C08']),
         ],
+        'prologue': SIGS,
         'loops': {
             0: {'assigns': 'bl_i0, ' + ST,
                 'invariants': [('member_methods.loop.bounds', 'bl_i0 <= g_nmembers && ' + ' && '.join('g_bsize[%d] <= BMAXV' % k for k in range(4))),
                                ('member_methods.loop.room_left', ' && '.join('(g_bsize[%d] + (size_t)(' % k + ' + '.join('((%d >= bl_i0 && %d < g_nmembers && g_md[g_members[%d]].kind == K_METHOD && g_md[g_members[%d]].name == %d) ? 1 : 0)' % (j, j, j, j, k) for j in range(6)) + ') <= BMAXV)' for k in range(4))),
-                               ('member_methods.loop.entries_live_so_far', 'VT_ENTRY_LIVE && VT_ENTRY_OWN')],
+                               ('member_methods.loop.entries_live_so_far', 'VT_ENTRY_LIVE && VT_ENTRY_OWN'),
+                               ('member_methods.loop.declared_so_far_have_their_entry', 'DECLARED_BELOW(bl_i0) ==> g_vt_has')],
                 'decreases': 'g_nmembers - bl_i0'},
             1: {'assigns': 'bl_i1, baseMethod',
                 'invariants': [('member_methods.base_lookup.bounds', 'bl_i1 <= g_bbsize[it]')],
